@@ -164,7 +164,7 @@ theorem codeFenceStart_line (c : Char) (d info : Str) (h : FenceOk c d info) :
 /-- the test `CodeFence.read` makes on every line after the opening one: is it a closing fence for the
     opening fence string `d`? -/
 def closes (d l : Str) : Bool :=
-  startsWith d (lstripSp l) && (match Py.splitWs (lstripSp l) with | [_] => true | _ => false) &&
+  startsWith d (lstripSp l) && (Py.rstripSet [' ', '\t', '\n'] (lstripSp l)).all (fun x => some x == d.head?) &&
     decide (l.length - (lstripSp l).length < 4)
 
 theorem lstripSp_cons (c : Char) (r : Str) : lstripSp (c :: r) = if c = ' ' then lstripSp r else c :: r := by
@@ -234,33 +234,29 @@ theorem codeFenceLoop_body (d : Str) (cl : Line) (hcl : closes d cl.s = true) (p
     rw [ih]
     simp
 
-theorem splitWsAux_word : ∀ (a cur : Str), (∀ x ∈ a, pyIsSpace x = false) → (cur ++ a ≠ []) →
-    Py.splitWsAux (a ++ ['\n']) cur = [cur.reverse ++ a]
-  | [], cur, _, hne => by
-    have : cur.isEmpty = false := by cases cur with | nil => simp at hne | cons _ _ => rfl
-    simp [Py.splitWsAux, show pyIsSpace '\n' = true by decide, this]
-  | x :: a, cur, ha, _ => by
-    have ih := splitWsAux_word a (x :: cur) (fun y hy => ha y (List.mem_cons_of_mem _ hy)) (by simp)
-    simp only [List.cons_append, Py.splitWsAux, ha x (by simp), Bool.false_eq_true, if_false, ih]
-    simp
-
 /-- the closing line: the fence string again -/
 theorem closes_self (c : Char) (d info : Str) (h : FenceOk c d info) : closes d (d ++ ['\n']) = true := by
   obtain ⟨r, hr⟩ := h.cons
   have h1 : c ≠ ' ' := by rcases h.ch with e | e <;> rw [e] <;> decide
-  have hsp : ∀ x ∈ d, pyIsSpace x = false := by
-    intro x hx
-    rw [h.rep] at hx
-    simp only [List.mem_replicate] at hx
-    rw [hx.2]
-    rcases h.ch with e | e <;> rw [e] <;> decide
+  have hcs : ([' ', '\t', '\n'].contains c) = false := by rcases h.ch with e | e <;> rw [e] <;> decide
   have hl : lstripSp (d ++ ['\n']) = d ++ ['\n'] := by rw [hr, List.cons_append, lstripSp_cons, if_neg h1]
-  have hw : Py.splitWs (d ++ ['\n']) = [d] := by
-    have := splitWsAux_word d [] hsp (by rw [hr]; simp)
-    simpa [Py.splitWs] using this
-  simp only [closes, hl, hw, startsWith]
+  have hrev : d.reverse = List.replicate d.length c := by
+    conv => lhs; rw [h.rep]
+    simp
+  have hlen : d.length = r.length + 1 := by rw [hr]; simp
+  have hrs : Py.rstripSet [' ', '\t', '\n'] (d ++ ['\n']) = d := by
+    unfold Py.rstripSet
+    rw [List.reverse_append, List.reverse_singleton, List.singleton_append, List.dropWhile_cons]
+    rw [if_pos (by decide), hrev, hlen, List.replicate_succ, List.dropWhile_cons, hcs]
+    simp only [Bool.false_eq_true, if_false]
+    rw [← List.replicate_succ, ← hlen, ← hrev, List.reverse_reverse]
+  have hall : d.all (fun x => some x == d.head?) = true := by
+    rw [hr]
+    simp only [List.head?_cons]
+    rw [← hr, h.rep]
+    simp
+  simp only [closes, hl, hrs, hall, startsWith]
   simp
-
 
 theorem readCodeFence_block (d info lang : Str) (l cl : Line) (hcl : closes d cl.s = true) (body pre post : List Line)
     (hb : ∀ x ∈ body, closes d x.s = false) (start : Nat) :
